@@ -90,10 +90,10 @@ hc_prop("C05",
                   dict(family="ep-ideal", n=T(tier, 150, 6000), params={}),
                   dict(family="ep-fidelity", n=T(tier, 300, 10000), params={}),
                   dict(family="frag-max", n=T(tier, 14, 200), params={"prop": "C05"}, scalable=False)],
-    GEN + "frag-max (ideal form): one packet from the top of the legal range (MAX_PACKET_SIZE = 65536 fragments, MAX-1, the fragment-count boundaries below, 5..95 MB) over a loss-free link. ideal family: no faults, constant latency per direction, bursts above window / allocation / flush budget, both directions. ep-ideal: a real Client and Server configured independently (what each may send 100 B..1 MB, what each can hold 3 kB..1 MB, rates 0.1..10 MB/s: each end has to use the OTHER's advertised allowance), ideal network, both applications submitting up to 1500 packets of every mode in bursts of up to 200 per step, until both ends report nothing pending. non-trivial: >= 50 packets delivered (ep-ideal: finished with >= 100 packets).",
+    GEN + "ep-ideal with a predecessor (a quarter of the sessions): an earlier connection from the same address that the client closed 6..19 s before the session proper; the second half of the client's packets is submitted only after the server's 20 s memory of the old connection has run out, and every one of them must arrive. frag-max (ideal form): one packet from the top of the legal range (MAX_PACKET_SIZE = 65536 fragments, MAX-1, the fragment-count boundaries below, 5..95 MB) over a loss-free link. ideal family: no faults, constant latency per direction, bursts above window / allocation / flush budget, both directions. ep-ideal: a real Client and Server configured independently (what each may send 100 B..1 MB, what each can hold 3 kB..1 MB, rates 0.1..10 MB/s: each end has to use the OTHER's advertised allowance), ideal network, both applications submitting up to 1500 packets of every mode in bursts of up to 200 per step, until both ends report nothing pending. non-trivial: >= 50 packets delivered (ep-ideal: finished with >= 100 packets).",
     "Equality oracle: delivered sequence (all channels) must be the submission sequence minus TimeSensitive packets; a fully transmitted TimeSensitive packet must not be skipped; at quiescence every non-TimeSensitive packet delivered exactly once; a scenario that stops making progress with a backlog (the progress monitor's stall signature) counts as packets not delivered. Endpoint level: each application's Receive events are exactly the other's submissions in order, TimeSensitive ones possibly missing.",
     "sequence-equality oracle over fault-free executions",
-    dict(quick=800, thorough=20000), require=["deliveries", "single_packet_max_packet_size"],
+    dict(quick=800, thorough=20000), require=["deliveries", "single_packet_max_packet_size", "ep_ideal_sessions_with_predecessor"],
     also=["C02:stall", "C11:stall", "C04:packet-not-reassembled"])
 
 hc_prop("C12",
